@@ -9,6 +9,7 @@ def _direct(what, h0, s0, s1, s2, pos, target, no_holes, read_twice, cut=0):
     pos 0..2 -> obj0 (already packed) at that position; pos 3 -> obj1 a second time at the end."""
     w = make_world(target)
     try:
+        w.set_next_id(2001)  # primary keys are sparse in a container that has seen deletions
         w.set_pack(0, [('junk', 0, h0), ('obj', 0, s0)])
         batch = [(1, s1), (2, s2)]
         if pos <= 2:
